@@ -11,7 +11,9 @@ Open Scope N_scope.
 
 Definition name := N.
 
-Inductive ty := TInt (lo hi : Z) | TStr (n : N) | TEnum (members : list (list N)).
+(* TStr n k: VARCHAR(n) with collation number k;  TDec p s: DECIMAL(p,s);  TDate / TDatetime: DATE / DATETIME(0) *)
+Inductive ty :=
+| TInt (lo hi : Z) | TStr (n : N) (k : N) | TEnum (members : list (list N)) | TDec (p s : N) | TDate | TDatetime.
 
 Fixpoint bytes_eqb (a b : list N) : bool :=
   match a, b with
@@ -20,7 +22,17 @@ Fixpoint bytes_eqb (a b : list N) : bool :=
   | _, _ => false
   end.
 Record col := mkc { cn : name; cty : ty; cnullable : bool }.
-Inductive val := VNull | VInt (z : Z) | VStr (s : list N).
+(* VDec u s = u * 10^-s;  VTime t = t seconds since the epoch (a DATE value is a multiple of 86400) *)
+Inductive val := VNull | VInt (z : Z) | VStr (s : list N) | VDec (u : Z) (s : N) | VTime (t : Z).
+
+(* division rounding half away from zero (MySQL / apd RoundHalfUp on the magnitude), b > 0 *)
+Definition rdiv (a b : Z) : Z := (Z.sgn a * ((2 * Z.abs a + b) / (2 * b)))%Z.
+Definition pow10 (n : N) : Z := (10 ^ Z.of_N n)%Z.
+
+(* rescale u * 10^-s0 to scale s *)
+Definition rescale (u : Z) (s0 s : N) : Z :=
+  if s0 <=? s then (u * pow10 (s - s0))%Z else rdiv u (pow10 (s0 - s)).
+Definition fits_dec (u : Z) (p : N) : bool := (Z.abs u <? pow10 p)%Z.
 
 (* per-value conversion to a column definition (types.Convert + the nullability check); None = not representable *)
 Definition conv (c : col) (v : val) : option val :=
@@ -28,13 +40,24 @@ Definition conv (c : col) (v : val) : option val :=
   | VNull => if cnullable c then Some VNull else None
   | VInt z => match cty c with
               | TInt lo hi => if (lo <=? z)%Z && (z <=? hi)%Z then Some (VInt z) else None
-              | TStr _ | TEnum _ => None
+              | TDec p s => let u := (z * pow10 s)%Z in if fits_dec u p then Some (VDec u s) else None
+              | _ => None
               end
   | VStr s => match cty c with
-              | TStr n => if N.of_nat (length s) <=? n then Some (VStr s) else None
+              | TStr n _ => if N.of_nat (length s) <=? n then Some (VStr s) else None   (* any collation: same bytes *)
               | TEnum ms => if existsb (bytes_eqb s) ms then Some (VStr s) else None   (* stored by member string *)
-              | TInt _ _ => None
+              | _ => None
               end
+  | VDec u s0 => match cty c with
+                 | TDec p s => let u' := rescale u s0 s in if fits_dec u' p then Some (VDec u' s) else None
+                 | TInt lo hi => let z := rescale u s0 0 in if (lo <=? z)%Z && (z <=? hi)%Z then Some (VInt z) else None
+                 | _ => None
+                 end
+  | VTime t => match cty c with
+               | TDatetime => Some (VTime t)
+               | TDate => Some (VTime (t - t mod 86400)%Z)       (* the time of day is dropped *)
+               | _ => None
+               end
   end.
 
 Definition row := list (name * val).
@@ -48,7 +71,7 @@ Fixpoint lookup (n : name) (r : row) : option val :=
 Definition remove_key (n : name) (r : row) : row := filter (fun kv => negb (fst kv =? n)) r.
 Definition rename_key (a b : name) (r : row) : row := map (fun kv => if fst kv =? a then (b, snd kv) else kv) r.
 
-Record table := mkt { tn : name; cols : list col; rows : list row }.
+Record table := mkt { tn : name; cols : list col; pk : list name; rows : list row }.
 
 Definition names (t : table) : list name := map cn (cols t).
 Definition has (n : name) (cs : list col) : bool := existsb (fun c => cn c =? n) cs.
@@ -87,7 +110,15 @@ Inductive op :=
 | OModify (n : name) (c' : col) (p : pos)    (* MODIFY / CHANGE COLUMN n c' [FIRST | AFTER a] *)
 | ORename (a b : name)                       (* RENAME COLUMN a TO b *)
 | ORenameTable (t' : name)                   (* RENAME TO t' *)
-| OIndex.                                    (* ADD / DROP INDEX: no effect on schema columns or data *)
+| OIndex                                     (* ADD / DROP INDEX: no effect on schema columns or data *)
+| OAddPK (ks : list name)                    (* ADD PRIMARY KEY (ks) *)
+| ODropPK.                                   (* DROP PRIMARY KEY *)
+
+Definition memb (n : name) (l : list name) : bool := existsb (N.eqb n) l.
+
+(* a primary-key column is NOT NULL whatever the statement says (modifyColumnInSchema keeps PrimaryKey) *)
+Definition eff (t : table) (n : name) (c' : col) : col :=
+  if memb n (pk t) then mkc (cn c') (cty c') false else c'.
 
 Definition modify_row (n : name) (c' : col) (r : row) : option row :=
   match lookup n r with
@@ -98,31 +129,64 @@ Definition modify_row (n : name) (c' : col) (r : row) : option row :=
   | None => None
   end.
 
+(* the column list after MODIFY / CHANGE n -> c' at position p *)
+Definition new_cols (n : name) (c' : col) (p : pos) (cs : list col) : option (list col) :=
+  match p with
+  | PKeep => Some (replace_col n c' cs)
+  | _ => insert_col p c' (remove_col n cs)
+  end.
+
+Definition val_eqb (a b : val) : bool :=
+  match a, b with
+  | VNull, VNull => true
+  | VInt x, VInt y => Z.eqb x y
+  | VStr x, VStr y => bytes_eqb x y
+  | VDec x s, VDec y s' => Z.eqb x y && N.eqb s s'
+  | VTime x, VTime y => Z.eqb x y
+  | _, _ => false
+  end.
+
+Definition key_of (ks : list name) (r : row) : list (option val) := map (fun k => lookup k r) ks.
+Definition okey_eqb (a b : option val) : bool :=
+  match a, b with Some x, Some y => val_eqb x y | None, None => true | _, _ => false end.
+Fixpoint keys_eqb (a b : list (option val)) : bool :=
+  match a, b with
+  | [], [] => true
+  | x :: a', y :: b' => okey_eqb x y && keys_eqb a' b'
+  | _, _ => false
+  end.
+Fixpoint distinct_keys (l : list (list (option val))) : bool :=
+  match l with
+  | [] => true
+  | k :: l' => negb (existsb (keys_eqb k) l') && distinct_keys l'
+  end.
+Fixpoint nodupb (l : list name) : bool :=
+  match l with [] => true | x :: l' => negb (memb x l') && nodupb l' end.
+Definition non_null (o : option val) : bool := match o with Some VNull | None => false | Some _ => true end.
+
 Definition alter (o : op) (t : table) : option table :=
   match o with
   | OAdd c fill p =>
     if has (cn c) (cols t) then None
     else match conv c fill with
          | Some v => match insert_col p c (cols t) with
-                     | Some cs => Some (mkt (tn t) cs (map (cons (cn c, v)) (rows t)))
+                     | Some cs => Some (mkt (tn t) cs (pk t) (map (cons (cn c, v)) (rows t)))
                      | None => None
                      end
          | None => None
          end
   | ODrop n =>
-    if has n (cols t) && (2 <=? N.of_nat (length (cols t)))
-    then Some (mkt (tn t) (remove_col n (cols t)) (map (remove_key n) (rows t)))
+    if has n (cols t) && (2 <=? N.of_nat (length (cols t))) && negb (memb n (pk t))
+    then Some (mkt (tn t) (remove_col n (cols t)) (pk t) (map (remove_key n) (rows t)))
     else None
-  | OModify n c' p =>
+  | OModify n c0 p =>
+    let c' := eff t n c0 in
     if has n (cols t) && ((cn c' =? n) || negb (has (cn c') (cols t))) then
       match mapM (modify_row n c') (rows t) with
       | Some rs =>
-        match p with
-        | PKeep => Some (mkt (tn t) (replace_col n c' (cols t)) rs)
-        | _ => match insert_col p c' (remove_col n (cols t)) with
-               | Some cs => Some (mkt (tn t) cs rs)
-               | None => None
-               end
+        match new_cols n c' p (cols t) with
+        | Some cs => Some (mkt (tn t) cs (map (fun k => if k =? n then cn c' else k) (pk t)) rs)
+        | None => None
         end
       | None => None
       end
@@ -130,14 +194,89 @@ Definition alter (o : op) (t : table) : option table :=
   | ORename a b =>
     if has a (cols t) && negb (has b (cols t))
     then Some (mkt (tn t) (map (fun c => if cn c =? a then mkc b (cty c) (cnullable c) else c) (cols t))
+                   (map (fun k => if k =? a then b else k) (pk t))
                    (map (rename_key a b) (rows t)))
     else None
-  | ORenameTable t' => Some (mkt t' (cols t) (rows t))
+  | ORenameTable t' => Some (mkt t' (cols t) (pk t) (rows t))
   | OIndex => Some t
+  | OAddPK ks =>
+    match pk t, ks with
+    | [], _ :: _ =>
+      if forallb (fun k => has k (cols t)) ks && nodupb ks &&
+         forallb (fun r => forallb (fun k => non_null (lookup k r)) ks) (rows t) &&
+         distinct_keys (map (key_of ks) (rows t))
+      then Some (mkt (tn t) (map (fun c => if memb (cn c) ks then mkc (cn c) (cty c) false else c) (cols t)) ks (rows t))
+      else None
+    | _, _ => None
+    end
+  | ODropPK =>
+    match pk t with
+    | [] => None
+    | _ => Some (mkt (tn t) (cols t) [] (rows t))
+    end
   end.
 
-(* a failed statement has no effect *)
-Definition exec (o : op) (t : table) : table := match alter o t with Some t' => t' | None => t end.
+(* ---- the one statement whose FAILURE has an effect (mirrors modifyColumnIter.rewriteTable):
+   an ENUM redefinition that takes the rewrite path writes the re-mapped member index into the stored row before
+   it converts / validates it; when a later row fails, the rows visited so far keep the new index, which the
+   unchanged (old) type reads as the old member at that position ('' beyond its end). ---- *)
+Fixpoint index_of_b (s : list N) (ms : list (list N)) (i : nat) : option nat :=
+  match ms with
+  | [] => None
+  | m :: ms' => if bytes_eqb s m then Some i else index_of_b s ms' (S i)
+  end.
+
+Definition set_key (n : name) (v : val) (r : row) : row := map (fun kv => if fst kv =? n then (n, v) else kv) r.
+
+Fixpoint corrupt_rows (n : name) (nullable' : bool) (old new : list (list N)) (rs : list row) : list row :=
+  match rs with
+  | [] => []
+  | r :: rs' =>
+    match lookup n r with
+    | Some VNull => if nullable' then r :: corrupt_rows n nullable' old new rs' else r :: rs'
+    | Some (VStr s) =>
+      match index_of_b s new 0 with
+      | Some j => set_key n (VStr (nth j old [])) r :: corrupt_rows n nullable' old new rs'
+      | None => r :: rs'
+      end
+    | _ => r :: rs'
+    end
+  end.
+
+Fixpoint is_prefix (a b : list (list N)) : bool :=
+  match a, b with
+  | [], _ => true
+  | x :: a', y :: b' => bytes_eqb x y && is_prefix a' b'
+  | _, _ => false
+  end.
+
+Fixpoint pos_of (n : name) (cs : list col) (i : nat) : nat :=
+  match cs with [] => i | c :: cs' => if cn c =? n then i else pos_of n cs' (S i) end.
+
+Definition find_col (n : name) (cs : list col) : option col := find (fun c => cn c =? n) cs.
+
+Definition corrupt (o : op) (t : table) : table :=
+  match o with
+  | OModify n c0 p =>
+    let c' := eff t n c0 in
+    if has n (cols t) && ((cn c' =? n) || negb (has (cn c') (cols t))) then
+      match find_col n (cols t), new_cols n c' p (cols t) with
+      | Some oc, Some cs =>
+        match cty oc, cty c' with
+        | TEnum old, TEnum new =>
+          if (cnullable oc && negb (cnullable c')) || negb (is_prefix old new) ||
+             negb (Nat.eqb (pos_of n (cols t) 0) (pos_of (cn c') cs 0))
+          then mkt (tn t) (cols t) (pk t) (corrupt_rows n (cnullable c') old new (rows t))
+          else t
+        | _, _ => t
+        end
+      | _, _ => t
+      end
+    else t
+  | _ => t
+  end.
+
+Definition exec (o : op) (t : table) : table := match alter o t with Some t' => t' | None => corrupt o t end.
 Definition exec_seq (os : list op) (t : table) : table := fold_left (fun t o => exec o t) os t.
 
 (* where a column goes: its name afterwards, None if dropped *)
@@ -149,10 +288,10 @@ Definition retained (o : op) (n : name) : option name :=
   | _ => Some n
   end.
 
-(* what happens to its values *)
-Definition convd (o : op) (n : name) (v : val) : option val :=
+(* what happens to its values (in table t) *)
+Definition convd (o : op) (t : table) (n : name) (v : val) : option val :=
   match o with
-  | OModify m c' _ => if n =? m then conv c' v else Some v
+  | OModify m c' _ => if n =? m then conv (eff t m c') v else Some v
   | _ => Some v
   end.
 
